@@ -291,6 +291,9 @@ def run_case(ctx, rng, idx):
         edits.append(("change-weight-by-one-ulp", lambda g: g.set_weight(*lib_args(kind, k0, rng), math.nextafter(w0, math.inf))))
         edits.append(("change-weight-by-1e-13", lambda g: g.set_weight(*lib_args(kind, k0, rng), w0 + 1e-13)))
     edits.append(("metadata-float-by-one-ulp", lambda g: (g.set_attr_to_hypergraph_metadata("x", 0.3), None)))
+    edits.append(("metadata-int-beyond-2**53", lambda g: (g.set_attr_to_node_metadata(rng.choice(list(C.nodes)), "big", 2**53 + 1), None)))
+    if C.weighted and isinstance(C.edges[k0][0], int):
+        edits.append(("weight-int-beyond-2**53", lambda g: g.set_weight(*lib_args(kind, k0, rng), 2**53 + 1)))
     if C.weighted:
         edits.append(("reinsert-existing-hyperedge(weight accumulates)", lambda g: _add(g, kind, k0, type(C.edges[k0][0])(1), copy.deepcopy(C.edges[k0][1]), rng)))
     edits.append(("reinsert-existing-hyperedge-with-other-metadata", lambda g: _add(g, kind, k0, None if not C.weighted else type(C.edges[k0][0])(0), {"re": "inserted"}, rng)))
@@ -327,12 +330,21 @@ def run_case(ctx, rng, idx):
                 g.set_attr_to_hypergraph_metadata("x", 0.1 + 0.2)  # 0.30000000000000004 vs 0.3 below
                 Sg0 = typed(observe(g))
                 base_cmp = hash_hypergraph(g)
+            if name == "metadata-int-beyond-2**53":
+                for n_ in C.nodes:
+                    g.set_attr_to_node_metadata(n_, "big", 2**53)  # 2**53 everywhere, then one of them becomes 2**53 + 1
+                Sg0 = typed(observe(g))
+                base_cmp = hash_hypergraph(g)
+            if name == "weight-int-beyond-2**53":
+                g.set_weight(*lib_args(kind, k0, rng), 2**53)
+                Sg0 = typed(observe(g))
+                base_cmp = hash_hypergraph(g)
             edit(g)
             Sg = observe(g)
         except Exception as e:
             ctx.note(f"edit-raised:{kind}:{name}:{type(e).__name__}")
             continue
-        if name == "metadata-float-by-one-ulp":
+        if name in ("metadata-float-by-one-ulp", "metadata-int-beyond-2**53", "weight-int-beyond-2**53"):
             hv, t = hash_pure(ctx, g, kind, lambda: wit({"edit": name}))
             ctx.check("C07:edit-changes-hash", hv != base_cmp, f"C07:{kind}:edit-kept-hash:{name}", lambda: wit({"edit": name}))
             ctx.event("edit:" + name)
